@@ -20,7 +20,7 @@ Fixpoint has_dup (l : list nat) : bool :=
   match l with [] => false | x :: r => memb x r || has_dup r end.
 
 Definition call_keys (cs : case) : list nat :=
-  match cs with BCase _ evs _ _ => map (fun p => key_of (fst p) (snd p)) (flat_map calls_of evs) end.
+  match cs with BCase _ evs _ _ => map (fun p => key_of (fst (fst p)) (snd (fst p))) (flat_map calls_of evs) end.
 
 (* non-trivial: some key is requested at least twice and somebody is answered *)
 Definition nontrivial (cs : case) : bool :=
